@@ -102,27 +102,33 @@ def accept (c : Client) (ans : Nat → Nat) : Client × List Event :=
       (c', ev ++ e)
     else (c, ev)                             -- try again later
 
+/-- `self.reopen(); self.timer.restart(duration=…)`: what each of the three callers does when the
+reconnect timer has expired -/
+def reopenRestart (c : Client) (duration : Option Int) : Client × List Event :=
+  let (c1, e1) := reopen c
+  ({ c1 with timer := c1.timer.restart c1.now duration }, e1)
+
+/-- the reconnect timer is armed and has expired: `self.timeout > 0.0 and self.timer.expired` -/
+def timerFired (c : Client) : Bool := decide (0 < c.timeout) && c.timer.expired c.now
+
 /-- `Client.serviceConnect()` -/
 def serviceConnect (c : Client) (ans : Nat → Nat) : Client × List Event :=
   if !c.accepted then
     let (c1, e1) := accept c ans
-    if !c1.accepted && c1.reconnectable then
-      if 0 < c1.timeout ∧ c1.timer.expired c1.now = true then
-        let (c2, e2) := reopen c1
-        ({ c2 with timer := c2.timer.restart c2.now }, e1 ++ e2)
-      else (c1, e1)
+    if !c1.accepted && c1.reconnectable && timerFired c1 then
+      let (c2, e2) := reopenRestart c1 none
+      (c2, e1 ++ e2)
     else (c1, e1)
   else (c, [])
 
+/-- the cut-off branch shared by `TcpClientStack.serviceConnect` (`handler.reopen(); handler.refresh()`)
+and `Patron.serviceAll` (`connector.reopen(); connector.timer.restart(duration=…)`) -/
+def cutoffPart (c : Client) (duration : Option Int) : Client × List Event :=
+  if c.cutoff && c.reconnectable && timerFired c then reopenRestart c duration else (c, [])
+
 /-- `TcpClientStack.serviceConnect()` -/
 def stackServiceConnect (c : Client) (ans : Nat → Nat) : Client × List Event :=
-  if c.cutoff then
-    if c.reconnectable then
-      if 0 < c.timeout ∧ c.timer.expired c.now = true then
-        let (c1, e1) := reopen c
-        ({ c1 with timer := c1.timer.restart c1.now }, e1)      -- handler.reopen(); handler.refresh()
-      else (c, [])
-    else (c, [])
+  if c.cutoff then cutoffPart c none
   else
     if !c.accepted then
       let (c1, e1) := serviceConnect c ans
@@ -131,15 +137,7 @@ def stackServiceConnect (c : Client) (ans : Nat → Nat) : Client × List Event 
 
 /-- the connection part of `Patron.serviceAll()` -/
 def patronConnect (c : Client) (ans : Nat → Nat) : Client × List Event :=
-  let (c1, e1) :=
-    if c.cutoff then
-      if c.reconnectable then
-        if 0 < c.timeout ∧ c.timer.expired c.now = true then
-          let (c', e') := reopen c
-          ({ c' with timer := c'.timer.restart c'.now c'.retry }, e')
-        else (c, [])
-      else (c, [])
-    else (c, [])
+  let (c1, e1) := cutoffPart c c.retry
   if !c1.accepted then
     let (c2, e2) := serviceConnect c1 ans
     (c2, e1 ++ e2)
